@@ -165,9 +165,10 @@ AmbCount(us, st) ==
 
 ---------------------------------------------------------------------------
 (* Initial expansion.  Result: [ph, st, err, msg]; err = "" (success),     *)
-(* "unset" (set -u), "vacant" (${p?w}), "nonassignable" (${1=w}; "only    *)
+(* "unset" (set -u), "vacant" (${p?w}), "nonassignable" (${1=w}: "only     *)
 (* variables ... can be assigned in this way"), "skip" (outside the        *)
-(* modelled fragment).  dq: the unit is lexically inside double quotes.             *)
+(* modelled fragment).  dq: the unit is lexically inside double quotes;    *)
+(* o: how the unspecified case of "$@" above is resolved.                  *)
 Res(ph, st) == [ph |-> ph, st |-> st, err |-> "", msg |-> ""]
 Err(kind, st, msg) == [ph |-> <<>>, st |-> st, err |-> kind, msg |-> msg]
 
